@@ -188,7 +188,12 @@ def check(case):
     p = case["p"]
     d = ras[0].dims[p]
     lab_eq, order_eq = _secondary_ok(ras, skip=d)
-    got = call(common.da.concatenate, arrs, axis=case["axis"], **kw)
+    import zlib
+    if set(kw) == {"align"} and zlib.crc32(repr(sorted(case.items(), key=str)).encode()) % 2 == 0:
+        # align given positionally - concatenate(arrays, axis, align), the order of the documented parameters
+        got = call(common.da.concatenate, arrs, case["axis"], kw["align"])
+    else:
+        got = call(common.da.concatenate, arrs, axis=case["axis"], **kw)
     if not unchanged():
         return bad("concatenate modified an input")
     must_refuse = (not align) and (not lab_eq)
